@@ -2,7 +2,8 @@ import Afkak.ClientNet
 import Afkak.ClientTrace
 import Afkak.Monitor.C08
 /-! Statements of C08 that were/are open.  `C08_invalidated_topic_reloads_before_send` is PROVED (AfkakProps/C08.lean);
-    `C08_recovers_within_retry_budget` is open and FALSE as stated (`C08_recovers_within_retry_budget_counterexample`). -/
+    `C08_recovers_within_retry_budget_v1` (sessions 3-4) is FALSE as stated (`C08_recovers_within_retry_budget_counterexample`);
+    `C08_recovers_within_retry_budget` is its session-5 restatement with the missing hypotheses: open. -/
 namespace Afkak.Props.C08.Open
 open Afkak.ClientNet Afkak.ClientCache
 
@@ -56,7 +57,7 @@ def ConsistentWith (L : Layout) (cfg : Cfg) (whatOf : Nat → Option ReqWhat) : 
      | .close _ | .cancel _ | .down _ | .bootLost _ | .bootFail _ => False
      | _ => True) ∧ ConsistentWith L cfg whatOf (step cfg st env e).1 rest
 
-/-- **C08, third sentence** (full strength, NOT proved, and false as stated:
+/-- (sessions 3-4 statement, kept for its counterexample) **C08, third sentence** (full strength, NOT proved, and false as stated:
     `C08_recovers_within_retry_budget_counterexample` in AfkakProps/C08.lean - the run may contain a clock step that lets
     the third send's request time out; a true version must add that no request of the run times out, that bootstrap
     connections answer with the layout too (`bootReply` is unconstrained by `ConsistentWith`), and that topic names /
@@ -69,7 +70,7 @@ def ConsistentWith (L : Layout) (cfg : Cfg) (whatOf : Nat → Option ReqWhat) : 
     latest for its THIRD send (stale route -> NotLeader invalidates -> reload -> right leader), the responses of all
     its keys.  The kernel-level step is `C08_recovers_step`; the coroutine-level half of the second sentence is
     `C08_invalidated_topic_reloads_before_send`. -/
-def C08_recovers_within_retry_budget : Prop :=
+def C08_recovers_within_retry_budget_v1 : Prop :=
   ∀ (cfg : Cfg) (past evs : List (Env × Ev)) (L : Layout) (keys : List TP) (whatOf : Nat → Option ReqWhat)
     (o1 o2 o3 : Nat),
     WellFormedRun cfg (past ++ evs) → NoFuel cfg {} (past ++ evs) →
@@ -80,6 +81,50 @@ def C08_recovers_within_retry_budget : Prop :=
     (∀ it ∈ traceOf cfg st evs, ∀ k b e w, it = TItem.ob (.mk k b e w) → whatOf k = some w) →
     -- the caller sends three times, each after the previous attempt completed
     (evs.filterMap (fun e => match e.2 with | .send o ks none _ _ => if ks == keys then some o else none | _ => none)) = [o1, o2, o3] →
+    ((evs.foldl (fun s e => (step cfg s e.1 e.2).1) st).reqs.filter (·.pending)) = [] →
+    ∃ tags, TItem.ob (.result o3 (.responses tags)) ∈ traceOf cfg st evs ∧ tags.length = keys.length
+
+/-- `ConsistentWith` plus: a BOOTSTRAP connection that answers, answers with the layout too -/
+def ConsistentWith2 (L : Layout) (cfg : Cfg) (whatOf : Nat → Option ReqWhat) : St → List (Env × Ev) → Prop
+  | _, [] => True
+  | st, (env, e) :: rest =>
+    (match e with
+     | .fire k r => (match reqGet st k, whatOf k with
+        | some q, some w => L.answer st q w = some r
+        | _, _ => False)
+     | .bootReply _ p => p = .metadata L.brokers L.topics
+     | .close _ | .cancel _ | .down _ | .bootLost _ | .bootFail _ => False
+     | _ => True) ∧ ConsistentWith2 L cfg whatOf (step cfg st env e).1 rest
+
+/-- the layout names every broker, topic and partition once (`Layout.leader` reads the FIRST entry, the client's
+    dictionaries keep the LAST) -/
+def Layout.unique (L : Layout) : Prop :=
+  (L.brokers.map (·.nodeId)).Nodup ∧ (L.topics.map (·.name)).Nodup ∧ ∀ t ∈ L.topics, (t.parts.map (·.part)).Nodup
+
+/-- **C08, third sentence, client level** (OPEN; session 5 restatement of `…_v1`, which is false as stated).  After any
+    finite sequence of leader moves, broker restarts and address changes (any reachable state of the client, not closing),
+    once the cluster has settled into a layout `L` (unique names) whose leaders of `keys` are listed brokers, a caller that
+    keeps re-sending a request for the distinct keys `keys` and expects responses (`expect = true`) - in a run in which
+    every completion delivered (broker or bootstrap) is the settled cluster's answer, NO request is timed out by the
+    client (`bcCancel` never observed: the environment answers before the request timeout; `…_v1` lacked this), nothing
+    is closed, cancelled or dropped, and every request is eventually answered - receives, at the latest for its THIRD
+    send (stale route -> NotLeader invalidates -> reload -> right leader), the responses of all its keys.
+    NOT proved (it needs the three sends followed through every interleaving with the other operations of the run);
+    no counterexample is known.  Exercised end to end by `harness/lib/e2e_recovery.py` (real Producer and Consumers over
+    real clients over a simulated cluster; PYTHON monitors with Python-computed bounds, not Lean monitors).  Proved
+    pieces: `C08_recovers_step` (kernel), `C08_invalidated_topic_reloads_before_send`, `C08_failed_send_invalidates_coroutine`. -/
+def C08_recovers_within_retry_budget : Prop :=
+  ∀ (cfg : Cfg) (past evs : List (Env × Ev)) (L : Layout) (keys : List TP) (whatOf : Nat → Option ReqWhat)
+    (o1 o2 o3 : Nat),
+    WellFormedRun cfg (past ++ evs) → NoFuel cfg {} (past ++ evs) →
+    let st := past.foldl (fun s e => (step cfg s e.1 e.2).1) ({} : St)
+    st.closing = false → L.unique → keys.Nodup →
+    (∀ key ∈ keys, ∃ n, L.leader key = some n ∧ n ≠ -1 ∧ n ∈ L.brokers.map (·.nodeId)) → keys ≠ [] →
+    ConsistentWith2 L cfg whatOf st evs →
+    (∀ it ∈ traceOf cfg st evs, ∀ k b e w, it = TItem.ob (.mk k b e w) → whatOf k = some w) →
+    (∀ it ∈ traceOf cfg st evs, ∀ k, it ≠ TItem.ob (.bcCancel k)) →
+    -- the caller sends three times, each after the previous attempt completed
+    (evs.filterMap (fun e => match e.2 with | .send o ks none _ true => if ks == keys then some o else none | _ => none)) = [o1, o2, o3] →
     ((evs.foldl (fun s e => (step cfg s e.1 e.2).1) st).reqs.filter (·.pending)) = [] →
     ∃ tags, TItem.ob (.result o3 (.responses tags)) ∈ traceOf cfg st evs ∧ tags.length = keys.length
 
